@@ -81,6 +81,62 @@ def _run_shard(arg):
         return ("error", spec, traceback.format_exc())
 
 
+def _child(conn, arg):
+    try:
+        conn.send(_run_shard(arg))
+    except BaseException:  # noqa: BLE001
+        try:
+            conn.send(("error", arg[1], traceback.format_exc()))
+        except Exception:  # noqa: BLE001
+            pass
+    finally:
+        conn.close()
+
+
+def run_parallel(work, jobs: int, timeout: float):
+    """Run shards in worker processes the parent can kill (a hanging shard is
+    reported as an inconclusive harness error, never as a violation)."""
+    ctx = multiprocessing.get_context("fork")
+    pending = list(work)
+    running = []   # (proc, conn, arg, t_start)
+    results = []
+    while pending or running:
+        while pending and len(running) < jobs:
+            arg = pending.pop(0)
+            parent, child = ctx.Pipe(duplex=False)
+            p = ctx.Process(target=_child, args=(child, arg), daemon=True)
+            p.start()
+            child.close()
+            running.append((p, parent, arg, time.time()))
+        still = []
+        for p, conn, arg, t0 in running:
+            got = None
+            try:
+                if conn.poll(0.02):
+                    got = conn.recv()
+            except (EOFError, OSError):
+                got = ("error", arg[1], "worker process died without a result")
+            if got is not None:
+                results.append(got)
+                p.join(5)
+                if p.is_alive():
+                    p.kill()
+                conn.close()
+            elif time.time() - t0 > timeout:
+                p.kill()
+                p.join(5)
+                conn.close()
+                results.append(("error", arg[1], f"shard exceeded its {timeout:.0f} s wall-clock watchdog (inconclusive): "
+                                                 "the code under test or the harness hangs"))
+            elif not p.is_alive() and not conn.poll(0.05):
+                conn.close()
+                results.append(("error", arg[1], f"worker process exited with code {p.exitcode} without a result"))
+            else:
+                still.append((p, conn, arg, t0))
+        running = still
+    return results
+
+
 def write_replay(cid: str, violation: dict) -> str:
     os.makedirs(os.path.join(VERIF, "replays"), exist_ok=True)
     h = "%016x" % stable_hash([violation.get("key"), violation.get("case")])
@@ -148,13 +204,11 @@ def main(argv=None) -> int:
         work = [(modname, spec, shard_seed(seed, cid, i), args.tier) for i, spec in enumerate(specs)]
         results = []
         jobs = max(1, min(args.jobs, len(work)))
-        if jobs == 1:
+        if jobs == 1 and os.environ.get("PAV_INLINE"):
             results = [_run_shard(w) for w in work]
         else:
-            ctx = multiprocessing.get_context("fork")
-            with ctx.Pool(jobs) as pool:
-                for r in pool.imap_unordered(_run_shard, work, chunksize=1):
-                    results.append(r)
+            to = float(os.environ.get("PAV_SHARD_TIMEOUT", "300" if args.tier == "quick" else "5400"))
+            results = run_parallel(work, jobs, to)
     except Exception:  # noqa: BLE001
         print("HARNESS-ERROR running shards")
         traceback.print_exc()
